@@ -39,8 +39,11 @@ fn permutations(n: usize) -> Vec<Vec<usize>> {
 fn compare(acc: &mut Acc, reg: &Registry, s: &dyn Subject, base: &Ov, base_run: &Run, permuted: &Ov, what: &str) {
     let r = run_case(s, permuted, Source::Ov, Script::Continue);
     let c = Case { payload: permuted.clone(), faults: vec!["members-permuted"] };
-    account(acc, s, &c, &r);
+    let _ = &c;
+    acc.eval();
     acc.count("permuted_runs_compared");
+    acc.count(&format!("outcome.{}", r.outcome.tag()));
+    acc.add("reports_in_permuted_runs", r.reports().count() as u64);
     acc.nontrivial(&(s.name(), trace_shape(&r), permuted.show()));
     if matches!(r.outcome, Outcome::Panic(_)) {
         return;
@@ -79,7 +82,7 @@ pub fn run(ctx: &Ctx, reg: &Registry) -> i32 {
                 }
                 note_case(&mut acc, s, &case);
                 let base_run = run_case(s, &case.payload, Source::Ov, Script::Continue);
-                account(&mut acc, s, &case, &base_run);
+                acc.eval();
                 if matches!(base_run.outcome, Outcome::Panic(_)) {
                     continue;
                 }
